@@ -713,10 +713,13 @@ class SmtLibParser(object):
         """
         Cleans the execution environment when we exit the scope of a quantifier
         """
-        variables = set()
+        # The variables are kept in the order of the binder (a set would
+        # order them by node id and return a different quantifier node)
+        variables = []
         for vname, var in vrs:
             self.cache.unbind(vname)
-            variables.add(var)
+            if var not in variables:
+                variables.append(var)
         return fun(variables, body)
 
     def _enter_let(self, stack: List[List[Union[Callable, FNode, List[Tuple[str, FNode]], Any]]], tokens: Tokenizer, key: str):
